@@ -4,6 +4,7 @@ import KM.Gen.GoAdmin
 import KM.Gen.GoGate
 import KM.Model.GoTypes
 import KM.Gen.GoTotpManage
+import KM.Gen.GoU2fReg
 /-! # C08 — the administration predicates as TRANSLATED from the current source (go2lean)
 
 `isAutomationAdmin` and `isAutomationUser` (cmd/keymasterd) are translated statement by statement from /repo's
@@ -233,3 +234,77 @@ theorem c08_go_totp_manage (ext : ManageExt) (method user idx action name : List
       | (simp at h)
 
 end KM.ManageGo
+
+/-! ## `u2fRegisterResponse` from `checkAuth` to the save (`KM/Gen/GoU2fReg.lean`, block) -/
+namespace KM.RegGo
+open KM.GoTypes KM.Go
+
+/-- an effect that changes a profile: everything but a refusal and the end -/
+def Changes (e : RegEffect) : Prop := (∀ n, e ≠ .fail n) ∧ e ≠ .success
+
+/-- **a token is registered only for one's own account, or by an admin with U2F, and never into a cached profile**
+(C08, C15), on the translated source of `u2fRegisterResponse` (from `checkAuth` to the save): any change of a profile —
+the new registration, the cleared challenge, the second-factor mark, the save — happens only for an identity
+`checkAuth` admitted at the web-UI level, for the URL's user where that is the caller's own name or the caller is an
+admin authenticated with U2F, on a profile loaded from the PRIMARY store without error with a registration challenge
+pending, after `u2f.Register` verified the response; and the profile saved is that user's. -/
+theorem c08_go_u2f_register (ext : RegExt) (user : List Char) (lvl : Nat) (e : RegEffect) (he : Changes e)
+    (h : e ∈ (KM.Gen.GoU2fReg.u2fRegisterCore ext user lvl).2) :
+    ∃ info, ext.checkAuth lvl = (info, none) ∧
+      (ext.adminAndU2F info.Username info.AuthType = true ∨ info.Username = user) ∧
+      (ext.loadProfile user).2.2.1 = false ∧ (ext.loadProfile user).2.2.2 = none ∧
+      ext.noChallenge = false ∧ ext.register.2 = none ∧ (∀ u, e = .save u → u = user) := by
+  obtain ⟨ca, adm, dec, load, noch, reg, now, save⟩ := ext
+  unfold KM.Gen.GoU2fReg.u2fRegisterCore at h
+  dsimp only at h ⊢
+  have bad0 : e ∈ ([] : List RegEffect) → False := by intro hm; cases hm
+  have bad : ∀ n, e ∈ (([] : List RegEffect) ++ [RegEffect.fail n]) → False := by
+    intro n hm; simp at hm; exact he.1 n hm
+  by_cases hce : (ca lvl).2.isSome = true
+  · rw [if_pos hce] at h; exact (bad0 h).elim
+  rw [if_neg hce] at h
+  have hca : ca lvl = ((ca lvl).1, none) := by
+    cases hh : (ca lvl).2 with
+    | none => exact Prod.ext rfl hh
+    | some x => rw [hh] at hce; simp at hce
+  by_cases hadm : (!adm (ca lvl).1.Username (ca lvl).1.AuthType && (ca lvl).1.Username != user) = true
+  · rw [if_pos hadm] at h; exact (bad _ h).elim
+  rw [if_neg hadm] at h
+  have hwho : adm (ca lvl).1.Username (ca lvl).1.AuthType = true ∨ (ca lvl).1.Username = user := by
+    cases ha : adm (ca lvl).1.Username (ca lvl).1.AuthType
+    · right; rw [ha] at hadm; simpa using hadm
+    · left; rfl
+  by_cases hde : dec.2.isSome = true
+  · rw [if_pos hde] at h; exact (bad _ h).elim
+  rw [if_neg hde] at h
+  by_cases hle : (load user).2.2.2.isSome = true
+  · rw [if_pos hle] at h; exact (bad _ h).elim
+  rw [if_neg hle] at h
+  have hle' : (load user).2.2.2 = none := by
+    cases hh : (load user).2.2.2 with
+    | none => rfl
+    | some x => rw [hh] at hle; simp at hle
+  by_cases hfc : (load user).2.2.1 = true
+  · rw [if_pos hfc] at h; exact (bad _ h).elim
+  rw [if_neg hfc] at h
+  have hfc' : (load user).2.2.1 = false := by simpa using hfc
+  by_cases hnc : noch = true
+  · rw [if_pos hnc] at h; exact (bad _ h).elim
+  rw [if_neg hnc] at h
+  have hnc' : noch = false := by simpa using hnc
+  by_cases hre : reg.2.isSome = true
+  · rw [if_pos hre] at h; exact (bad _ h).elim
+  rw [if_neg hre] at h
+  have hre' : reg.2 = none := by
+    cases hh : reg.2 with
+    | none => rfl
+    | some x => rw [hh] at hre; simp at hre
+  refine ⟨(ca lvl).1, hca, hwho, hfc', hle', hnc', hre', ?_⟩
+  intro u hu
+  subst hu
+  repeat' split at h
+  all_goals first
+    | (simp at h; exact h)
+    | (simp at h)
+
+end KM.RegGo
